@@ -66,7 +66,7 @@ def dense_py(cx, skel_runs, genome, prefix):
 RUNSETS = {"g1": [[], [0], [0, 0]], "g2": [[0], [1], [0, 1], [0, 0, 1]], "g3": [[0, 2], [1], [0, 1, 2]], "g1b": [[0, 0, 0]]}
 
 UNARY = ("to_dict", "sum", "add_scalar", "mul3", "lt_scalar", "eq_scalar", "neg_mask", "roundtrip", "mask_roundtrip",
-         "rsub_scalar", "rlt_scalar", "float_dense")
+         "rsub_scalar", "rlt_scalar", "float_dense", "iv_pileup", "iv_mask")
 FLOATS = [0.7, 0.1, 2.5]      # values of the float track (record i carries FLOATS[i]): a larger value followed by smaller non-dyadic ones
 BINARY = ("add", "sub", "lt", "and", "or")
 
@@ -78,7 +78,7 @@ class Track(Harness):
                  "npstructures.RunLengthArray ufuncs")
     bounds = {"quick": "genomes {chr1:4}, {chr1:3,chr2:2}, {chr1:2,chr10:1,chr2:3}; 0-2 bedGraph records with symbolic sorted "
                        "non-overlapping boundaries and values in [-3,3]; unary ops incl. a scalar as the LEFT operand (k - t, k < t); the same "
-                       "records with the double values 0.7, 0.1, 2.5 expanded exactly; binary ops of two single-record tracks",
+                       "records with the double values 0.7, 0.1, 2.5 expanded exactly; pileup and mask built from the records' INTERVALS (touching intervals incl.); binary ops of two single-record tracks",
               "thorough": "up to 3 records per track, a 6-base chromosome, binary ops of tracks with 1-2 records each on all genomes"}
 
     def skeletons(self, tier, seed):
@@ -150,6 +150,16 @@ class Track(Harness):
                           ctx.arr([cz(x[f"ae{i}"]) for i in range(n)], "int64"), np.array(FLOATS[:n], dtype=float))
             Fl = GenomicArray.from_bedgraph(bg, bnp.Genome.from_dict(dict(genome))._genome_context)
             return dict(fdense={kk: [v for v in ctx.lst(vv)] for kk, vv in Fl.to_dict().items()})
+        if op in ("iv_pileup", "iv_mask"):
+            # the array built from INTERVALS (the records' boundaries, values ignored): touching intervals give equal neighbouring depths
+            import bionumpy as bnp
+            from bionumpy.datatypes import Interval
+            names, n = list(genome), len(skel["a"])
+            g = bnp.Genome.from_dict(dict(genome))
+            gi = g.get_intervals(Interval([names[c] for c in skel["a"]], ctx.arr([x[f"as{i}"] for i in range(n)], "int64"),
+                                          ctx.arr([x[f"ae{i}"] for i in range(n)], "int64")))
+            R = gi.get_pileup() if op == "iv_pileup" else gi.get_mask()
+            return dict(dense=dd(R))
         if op == "rsub_scalar":
             return dict(dense=dd(ctx.np.subtract(k, A)), a=dd(A))          # k - A: scalar as the LEFT operand
         if op == "rlt_scalar":
@@ -237,6 +247,15 @@ class Track(Harness):
             return False
         if b is not None and not cmp_dense(out["b"], b, False):
             return False
+        if op in ("iv_pileup", "iv_mask"):
+            exp = {}
+            for ci, nm in enumerate(names):
+                col = []
+                for p in range(genome[nm]):
+                    cov = [z3.And(x[f"as{i}"].t <= p, p < x[f"ae{i}"].t) for i, c in enumerate(skel["a"]) if c == ci]
+                    col.append(z_or(cov) if op == "iv_mask" else sum([z3.If(c, 1, 0) for c in cov], z3.IntVal(0)))
+                exp[nm] = col
+            return z_and(conj) if cmp_dense(out["dense"], exp, op == "iv_mask") else False
         fn = {"to_dict": (lambda u, v: u, False), "add": (lambda u, v: u + v, False), "sub": (lambda u, v: u - v, False),
               "lt": (lambda u, v: u < v, True), "and": (lambda u, v: z3.And(u > 0, v > 0), True),
               "or": (lambda u, v: z3.Or(u > 0, v > 0), True), "add_scalar": (lambda u, v: u + k, False),
@@ -289,6 +308,13 @@ class Track(Harness):
                 for p in range(s, e):
                     re[c][p] = True if boolean else r["value"][j]
             return None if re == exp else f"{op}: records {r} expand to {re}, dense array is {exp} ({desc})"
+        if op in ("iv_pileup", "iv_mask"):
+            exp = {}
+            for ci, nm in enumerate(names):
+                cnt = [sum(1 for i, c in enumerate(skel["a"]) if c == ci and cx[f"as{i}"] <= p < cx[f"ae{i}"]) for p in range(genome[nm])]
+                exp[nm] = [v > 0 for v in cnt] if op == "iv_mask" else cnt
+            got = {nm: [(bool(v) if op == "iv_mask" else int(v)) for v in col] for nm, col in cout["dense"].items()}
+            return None if got == exp else f"{op} of intervals {[(r[0], r[1], r[2]) for r in recs('a', skel['a'])]} on {genome}: {got}, expected {exp}"
         f = {"to_dict": lambda u, v: u, "add": lambda u, v: u + v, "sub": lambda u, v: u - v, "lt": lambda u, v: u < v,
              "and": lambda u, v: u > 0 and v > 0, "or": lambda u, v: u > 0 or v > 0, "add_scalar": lambda u, v: u + k,
              "mul3": lambda u, v: u * 3, "lt_scalar": lambda u, v: u < k, "eq_scalar": lambda u, v: u == k,
